@@ -431,7 +431,11 @@ def gen_fit_c12(rng, quick=True, recovery=False):
     bites = False
     for name in p:
         is_n = name.startswith("n")
-        if rng.random() < (0.15 if recovery else 0.25):
+        if recovery:
+            # the recovery clause of the statement is about the plain case: every parameter free, default
+            # limits, no constraint (fixed subsets, boxes and constraints belong to the invariant clauses)
+            continue
+        if rng.random() < 0.25:
             fixed.append(name)
             if recovery or rng.random() < 0.5:
                 start[name] = p[name]
@@ -483,7 +487,7 @@ def gen_fit_c12(rng, quick=True, recovery=False):
     order = FAMILY_ORDER[family]
     pairs = [("R2", "R1"), ("R1", "R0")] if "R2" in p else [("R1", "R0")]
     tgt, src = rng.choice(pairs)
-    if all(x not in fixed and x not in boxes for x in (tgt, src)) and rng.random() < (0.35 if not recovery else 0.2):
+    if not recovery and all(x not in fixed and x not in boxes for x in (tgt, src)) and rng.random() < 0.35:
         ratio = p[tgt] / p[src]
         expr = {order[tgt]: f"ratio * {order[src]}"}
         if rng.random() < 0.5:
